@@ -994,6 +994,30 @@ fn case_plumb(kv: &Kv) -> String {
         }
         // the wall-clock comparison itself (no virtual clock installed): a deadline already in the past behaves like
         // a clock that is expired at every probe, one far in the future like a clock that never expires
+        "real_past_then_future" => {
+            // an expired deadline must leave nothing behind on this thread: the next diff, with a deadline far
+            // away, behaves like no deadline
+            let t = Instant::now();
+            std::thread::sleep(Duration::from_millis(3));
+            for _ in 0..3 {
+                let _ = similar::capture_diff_slices_deadline(alg, &oi[..], &ni[..], Some(t));
+            }
+            let far = Instant::now() + Duration::from_secs(3600);
+            let got = similar::capture_diff_slices_deadline(alg, &oi[..], &ni[..], Some(far));
+            let want = similar::capture_diff_slices(alg, &oi[..], &ni[..]);
+            let td = {
+                let mut c = TextDiff::configure();
+                c.algorithm(alg);
+                c.deadline(far);
+                c.diff_chars(&o[..], &n[..]).ops().to_vec()
+            };
+            let want_td = {
+                let mut c = TextDiff::configure();
+                c.algorithm(alg);
+                c.diff_chars(&o[..], &n[..]).ops().to_vec()
+            };
+            fmt(true, Some(same_ops(&got, &want) && same_ops(&td, &want_td)), None, None)
+        }
         "real_past" | "real_future" => {
             let past = entry == "real_past";
             let dlv = if past {
